@@ -35,6 +35,7 @@ var trustedBase = map[string]string{
 	"(*regexp.Regexp).ReplaceAllString": "regexp.MustCompile(`[^a-z0-9]`).ReplaceAllString(s, \"\") = stripNonAlnum(s), which satisfies alnumLower",
 	"unicode/utf8.DecodeRuneInString":   "utf8.DecodeRuneInString(s) = (firstRune(s), runeLen(s)) with the axioms of std.spec",
 	"unicode.IsDigit":                   "unicode.IsDigit(r) = isDigitRune(r) (uninterpreted; axioms in std.spec)",
+	"strings.TrimLeft":                  "strings.TrimLeft(s, \"0123456789\") = trimDigits(s): on an [a-z0-9]* string the result is empty or starts with a letter (axiom trim-digits)",
 }
 
 // pure std-lib packages: functions that cannot touch jennifer's heap or the ghost state
@@ -334,6 +335,14 @@ func (u *Unit) execExtern(p *Path, x *ssa.Call, name string, args []*Term) {
 	case "unicode.IsDigit":
 		u.specFun("isDigitRune", []string{SInt}, SBool)
 		set1(App("isDigitRune", SBool, args[0]))
+	case "strings.TrimLeft":
+		// only the cutset of the ASCII digits is modelled (guessAlias): trimDigits with the axiom of std.spec
+		if c, ok := constString(x.Call.Args[1]); ok && c == "0123456789" {
+			u.specFun("trimDigits", []string{SStr}, SStr)
+			set1(App("trimDigits", SStr, args[0]))
+		} else {
+			u.opaqueCall(p, x, name)
+		}
 	case "strings.Index":
 		set1(App("str.indexof", SInt, args[0], args[1], IntLit(0)))
 	case "strings.IndexByte":
